@@ -1,5 +1,5 @@
 """C07 - forcing recomputes exactly what was asked."""
-from ..store_check import run_families
+from ..store_check import run_families, validate_recorded
 
 RELEVANT = {'forced', 'runs', 'visible', 'value', 'error'}
 
@@ -21,7 +21,7 @@ def plans(quick):
             dict(family='deep',
                  gen=dict(steps=4, slots=1, lists=[['e1'], ['e1', 'e2']], fail=True, restart=False), cover_limit=120, walks=40,
                  sim=dict(num=80, depth=12)),
-            dict(family='names', name_mode=True, gen=dict(steps=5, slots=1, rcs=['model', 'model.large'], lists=[['model'], ['model.large']], fail=False, restart=False), cover_limit=None, walks=100, sim=dict(num=200, depth=10, fail=False, rcs=['model', 'model.large'], lists=[['model'], ['model.large']])),
+            dict(family='names', name_mode=True, gen=dict(steps=5, slots=1, rcs=['model', 'model.large'], lists=[['model'], ['model.large']], fail=False, restart=False), cover_limit=600, walks=100, sim=dict(num=200, depth=10, fail=False, rcs=['model', 'model.large'], lists=[['model'], ['model.large']])),
         ]
     return [
         dict(family='names', name_mode=True, checks=[dict(steps=4, slots=2)], gen=dict(steps=4, slots=2, rcs=['model', 'model.large'], lists=[['model'], ['model.large']]), walks=200, sim=dict(num=600, depth=14)),
@@ -39,4 +39,10 @@ def plans(quick):
 def run(ctx):
     ctx.assumptions += ['the iteration order of chain.force(recompute=True) over a Python set is not controlled: runs of '
                         'force steps are compared as multisets']
-    run_families(ctx, plans(ctx.quick()), RELEVANT)
+    ps = plans(ctx.quick())
+    for p in ps:
+        p['opts'] = dict(p.get('opts') or {}, record=True)
+    run_families(ctx, ps, RELEVANT)
+    # every replay, as the events Task.data itself produced, against the decision logic of StoreTrace.tla:
+    # a forced task must run (never load), an unforced visible one must load (never run)
+    validate_recorded(ctx, kinds={'L', 'R', 'DE'}, cap=2500 if ctx.quick() else None)
